@@ -24,7 +24,7 @@ func init() {
 }
 
 func runC07(c *fw.Ctx) {
-	c.Rule = "(1) store level: seeded Set/Delete histories over prefix-sharing topics (all topics of <=3 levels over {a,b,''} under a mount point) on the real replicated retained store, then Get(filter) for EVERY valid filter of <=4 levels over {a,b,c,+,#,''} compared with the model map filtered by the MQTT matcher; plus retained writes alternating between two nodes whose clocks differ by 7 s, each delivered to the other before the next write; (2) end to end: histories of <=12 retained publishes / clears / subscribes over 5 prefix-sharing topics on a broker node (and subscribes on a second node after the gossip barrier): each new subscription must receive, between its SUBACK and the barrier (own PINGRESP, then a sentinel), exactly one retain-flagged copy per model topic matched by its filter with the latest payload, nothing for cleared topics; a standing subscriber must see the live copies unflagged. distinct = (history, filter); non-trivial = the model holds >=2 topics and the filter matches some but not all"
+	c.Rule = "(1) store level: seeded Set/Delete histories over prefix-sharing topics (all topics of <=3 levels over {a,b,''} under a mount point) on the real replicated retained store, then Get(filter) for EVERY valid filter of <=4 levels over {a,b,c,+,#,''} compared with the model map filtered by the MQTT matcher; plus retained writes alternating between two nodes whose clocks differ by 7 s, each delivered to the other before the next write; (2) end to end: histories of <=12 retained publishes / clears / subscribes over 5 prefix-sharing topics on a broker node (and subscribes on a second node after the gossip barrier): each new subscription must receive, between its SUBACK and the barrier (own PINGRESP, then a sentinel), exactly one retain-flagged copy per model topic matched by its filter with the latest payload, nothing for cleared topics; a standing subscriber must see the live copies unflagged; a second standing subscriber re-sends SUBSCRIBE for the filter it already holds and must get the replay each time. Store level also: writes on two nodes with one clock whose broadcasts arrive 0-3 writes late (a clear may overtake the publish it clears): the write that happened last decides on both. distinct = (history, filter); non-trivial = the model holds >=2 topics and the filter matches some but not all"
 	c.Assume("one filter per SUBSCRIBE packet; publishes wait for PUBACK (the retained store is updated before the acknowledgement)")
 	workers := runtime.NumCPU()
 	filters := c01Enumerate([]string{"a", "b", "c", "+", "#", ""}, 4, true)
@@ -193,6 +193,82 @@ func runC07(c *fw.Ctx) {
 			}
 			c.Case(fmt.Sprintf("pingpong|%v", trace), len(m) > 0)
 		}
+		// writes on two nodes with ONE clock (stamps follow real time) whose broadcasts reach the other node
+		// only after 0-3 further writes: a clear may overtake the publish it clears. In the end the write
+		// that happened last decides on both nodes
+		tick = 0
+		offsets = []int64{0, 0}
+		nDel := c.Pick(600, 8000)
+		for h := 0; h < nDel; h++ {
+			rg := c.SubRng("c07/delayed", h)
+			rs := []*kit.Replica{kit.NewReplica(1), kit.NewReplica(2)}
+			m := map[string]string{}
+			trace := []string{}
+			type transit struct {
+				to  int
+				due int
+				b   []byte
+			}
+			inTransit := []transit{}
+			steps := 3 + rg.Intn(8)
+			overtaken := false
+			for i := 0; i <= steps+4; i++ {
+				keep := inTransit[:0]
+				for _, tr := range inTransit {
+					if tr.due <= i {
+						rs[tr.to].Deliver(tr.b)
+					} else {
+						keep = append(keep, tr)
+					}
+				}
+				inTransit = keep
+				if i >= steps {
+					continue // only deliveries are left
+				}
+				active = rg.Intn(2)
+				t := []string{"a", "a/b"}[rg.Intn(2)]
+				if len(inTransit) > 0 {
+					overtaken = true
+				}
+				if rg.Intn(2) == 0 {
+					v := fmt.Sprintf("v%d", i)
+					rs[active].S.Topics().Set(&packet.Publish{Header: &packet.Header{Retain: true}, Topic: []byte("mp/" + t), Payload: []byte(v)})
+					m[t] = v
+					trace = append(trace, fmt.Sprintf("n%d set %s=%s", active+1, t, v))
+				} else {
+					rs[active].S.Topics().Delete([]byte("mp/" + t))
+					delete(m, t)
+					trace = append(trace, fmt.Sprintf("n%d clear %s", active+1, t))
+				}
+				delay := rg.Intn(4)
+				for _, b := range rs[active].Drain() {
+					inTransit = append(inTransit, transit{1 - active, i + 1 + delay, b})
+				}
+				if delay > 0 {
+					trace[len(trace)-1] += fmt.Sprintf(" (reaches the other node %d writes later)", delay)
+				}
+			}
+			for ni, r := range rs {
+				msgs, _ := r.S.Topics().Get([]byte("mp/#"))
+				got := []string{}
+				for _, x := range msgs {
+					got = append(got, strings.TrimPrefix(string(x.Publish.Topic), "mp/")+"="+string(x.Publish.Payload))
+				}
+				want := []string{}
+				for t, v := range m {
+					want = append(want, t+"="+v)
+				}
+				sort.Strings(got)
+				sort.Strings(want)
+				c.Observe("delayed_gossip_lookups", 1)
+				if strings.Join(got, ";") != strings.Join(want, ";") {
+					c.Violation("store-delayed-gossip", fmt.Sprintf("retained writes on two nodes with one clock, gossip delayed (%v): once everything is delivered node %d replays %q, the last writes are %q", trace, ni+1, got, want),
+						map[string]interface{}{"history": trace, "node": ni + 1, "observed": got, "expected": want})
+					break
+				}
+			}
+			c.Case(fmt.Sprintf("delayed|%v", trace), overtaken)
+		}
 		distributed.VerifSetClock(restore)
 	}
 
@@ -260,6 +336,22 @@ func c07Scenario(c *fw.Ctx, s int) {
 		c.Inconclusive(fmt.Sprintf("scenario %d: no PINGRESP: %v", s, err))
 		return
 	}
+	// a second standing subscriber that re-sends its SUBSCRIBE now and then: every SUBSCRIBE, also of a
+	// filter the session already holds, is answered with the current retained messages
+	resub, err := n1.MustConnect(kit.ConnectOpts{ClientID: "resubscriber", KeepAlive: 600, Clean: true})
+	if err != nil {
+		c.Inconclusive("connect: " + err.Error())
+		return
+	}
+	defer resub.Close()
+	if err := resub.Subscribe([]string{"r/#", "zz/resub"}, []int{0, 0}); err != nil {
+		c.Inconclusive("subscribe: " + err.Error())
+		return
+	}
+	if ok, err := resub.Ping(kit.DefaultWait); !ok {
+		c.Inconclusive(fmt.Sprintf("scenario %d: no PINGRESP: %v", s, err))
+		return
+	}
 	// delivery barrier after every publish: recipients are resolved when the writer handles the
 	// message, so a subscription made before that point may legitimately get the live copy too
 	settle := func(topic, payload string) bool {
@@ -268,6 +360,13 @@ func c07Scenario(c *fw.Ctx, s int) {
 		})
 		if err != nil {
 			c.Inconclusive(fmt.Sprintf("scenario %d: standing subscriber never saw the live copy of %s: %v", s, topic, err))
+			return false
+		}
+		_, _, err = resub.WaitFor(0, 60*time.Second, func(e kit.Event) bool {
+			return e.Pkt.Type == kit.PUBLISH && e.Pkt.Topic == topic && string(e.Pkt.Payload) == payload && !e.Pkt.Retain
+		})
+		if err != nil {
+			c.Inconclusive(fmt.Sprintf("scenario %d: second standing subscriber never saw the live copy of %s: %v", s, topic, err))
 			return false
 		}
 		return true
@@ -309,6 +408,13 @@ func c07Scenario(c *fw.Ctx, s int) {
 			}
 			delete(m, t)
 			trace = append(trace, "clear "+t)
+		case r < 7:
+			trace = append(trace, "re-SUBSCRIBE r/# on a session that already holds it")
+			sentinelSeq++
+			if !c07Subscribe(c, s, n1, "n1", pub, "r/#", m, trace, sentinelSeq, twoNodes, cl, resub) {
+				return
+			}
+			c.Observe("e2e_resubscribes_checked", 1)
 		default:
 			f := c07Filters[rg.Intn(len(c07Filters))]
 			node := n1
@@ -347,7 +453,7 @@ func c07Scenario(c *fw.Ctx, s int) {
 			}
 			trace = append(trace, fmt.Sprintf("subscribe@%s %s", where, f))
 			sentinelSeq++
-			if !c07Subscribe(c, s, node, where, pub, f, m, trace, sentinelSeq, twoNodes, cl) {
+			if !c07Subscribe(c, s, node, where, pub, f, m, trace, sentinelSeq, twoNodes, cl, nil) {
 				return
 			}
 		}
@@ -356,7 +462,7 @@ func c07Scenario(c *fw.Ctx, s int) {
 	f := c07Filters[rg.Intn(len(c07Filters))]
 	trace = append(trace, "subscribe@n1 "+f)
 	sentinelSeq++
-	if !c07Subscribe(c, s, n1, "n1", pub, f, m, trace, sentinelSeq, twoNodes, cl) {
+	if !c07Subscribe(c, s, n1, "n1", pub, f, m, trace, sentinelSeq, twoNodes, cl, nil) {
 		return
 	}
 	// live copies at the standing subscriber: not flagged, one each
@@ -389,20 +495,25 @@ func c07Scenario(c *fw.Ctx, s int) {
 	}
 }
 
-func c07Subscribe(c *fw.Ctx, s int, node *kit.Node, where string, pub *kit.Client, f string, m map[string]string, trace []string, seq int, twoNodes bool, cl *kit.Cluster) bool {
-	cc, err := node.MustConnect(kit.ConnectOpts{ClientID: fmt.Sprintf("late-%d-%d", s, seq), KeepAlive: 600, Clean: true})
-	if err != nil {
-		c.Inconclusive("connect: " + err.Error())
-		return false
-	}
-	defer cc.Close()
-	sentinelTopic := fmt.Sprintf("zz/s%d", seq)
-	if err := cc.Sub1(sentinelTopic, 0); err != nil {
-		c.Inconclusive("subscribe sentinel: " + err.Error())
-		return false
-	}
-	if twoNodes {
-		cl.Quiesce() // the publisher's node must know the sentinel subscription
+func c07Subscribe(c *fw.Ctx, s int, node *kit.Node, where string, pub *kit.Client, f string, m map[string]string, trace []string, seq int, twoNodes bool, cl *kit.Cluster, reuse *kit.Client) bool {
+	cc := reuse
+	sentinelTopic := "zz/resub"
+	if reuse == nil {
+		var err error
+		cc, err = node.MustConnect(kit.ConnectOpts{ClientID: fmt.Sprintf("late-%d-%d", s, seq), KeepAlive: 600, Clean: true})
+		if err != nil {
+			c.Inconclusive("connect: " + err.Error())
+			return false
+		}
+		defer cc.Close()
+		sentinelTopic = fmt.Sprintf("zz/s%d", seq)
+		if err := cc.Sub1(sentinelTopic, 0); err != nil {
+			c.Inconclusive("subscribe sentinel: " + err.Error())
+			return false
+		}
+		if twoNodes {
+			cl.Quiesce() // the publisher's node must know the sentinel subscription
+		}
 	}
 	from := cc.NumEvents()
 	if err := cc.Sub1(f, 0); err != nil {
